@@ -30,13 +30,17 @@ MANIFEST = {
     'text': 'Coq: (analysis, Coquelicot) the table entries t^n e^{pt}, damped sin/cos with phase, rect/tri/ramp/rampstep(at), '
             'delays and every real exp-poly signal have the stated transform as their improper integral from 0 for real s in '
             'the region of convergence; (algebra, any characteristic-0 field with abstract exp/sin/cos) the closed forms '
-            'translated from lcapy/laplace.py on every run equal the specification entries of the inductive relation LPair '
+            'translated from lcapy/laplace.py on every run (incl. the sifting branch delta*v and clip_heaviside) equal the specification entries of the inductive relation LPair '
             '(table + linearity, delay, exponential weighting, time scaling, derivative with 0- values, integral, convolution), '
             'and the hand model of LaplaceTransformer.term / UnilateralForwardTransformer.doit is sound for LPair, linear and '
-            'cache-transparent.  The model is tied to the code by evaluating it inside Coq on generated expressions against '
+            'cache-transparent; polynomial factors (sums inside products, distributed by expand) are inside the model.  For products of real '
+            'classical factors the denotation is proved to be the pointwise product of the factor functions on t > 0, so the value '
+            'the model assigns is the defining integral of that very function (classical_term_is_integral).  The model is tied to the code by evaluating it inside Coq on generated expressions against '
             'what Lcapy returned (values and dispatch events).',
     'note': 'partial: complex s and impulse entries are specification-level (no distribution theory / complex improper '
-            'integrals for Coq 8.16); sympy.integrate (fall-through branch) is an oracle validated per case, not proved. '
+            'integrals for Coq 8.16); sympy.integrate (fall-through branch) is an oracle validated per case, not proved - but its contract '
+            'value is proved to be the integral of the denoted function for real classical products; products with sin/cos (complex poles) and '
+            'impulses keep the algebraic denotation. '
             'Trusted: Coq kernel/vm_compute, tools/tr_laplace.py, the reifier and exact evaluator in tools/impl_laplace.py, '
             'specification coq/theory/LaplaceSig.v; standard-library real-number axioms (listed in the evidence).',
     'technique': 'Coq proof (Coquelicot analysis + field identities over a model translated from source + hand model soundness) '
@@ -224,6 +228,32 @@ class Gen:
             return 'sift', '%s(t)*delta(%s)' % (v, lin(self.ch(['2', '3', '1/2']), -fr(self.ch(DELAYS))))
         return 'sift', '%s(%s)*delta(%s)' % (v, lin(self.ch(['2', '1/2']), -fr(self.ch(['0', '1', '1/2']))), lin(1, -fr(self.ch(DELAYS))))
 
+    def k_polyfac(self):
+        # a polynomial factor (a sum inside a product)
+        c0 = self.ch(['1', '2', '-1', '1/2', '3', 'a'])
+        c1 = self.ch(['1', '2', '-1', '3/2', 'b'])
+        r = self.rng.random()
+        if r < 0.25:
+            p = '(t**2 + %s)' % c0
+        else:
+            p = '(%s*t + %s)' % (c1, c0)
+        r = self.rng.random()
+        if r < 0.25:
+            rest = self.expf()
+        elif r < 0.45:
+            rest = self.trig()
+        elif r < 0.6:
+            rest = self.step()
+        elif r < 0.72:
+            rest = '%s*%s' % (self.expf(), self.step())
+        elif r < 0.84:
+            rest = 'delta(%s)' % lin(1, -fr(self.ch(['0'] + DELAYS)))
+        elif r < 0.92:
+            rest = 't*%s' % self.expf()
+        else:
+            rest = '%s*%s' % (self.expf(), self.trig(False))
+        return 'polyfac', '%s*%s' % (p, rest)
+
     def k_cexp(self):
         a = self.ch(['-1', '-2', '-1/2'])
         w = self.ch(['1', '2', '3'])
@@ -240,7 +270,7 @@ class Gen:
     def atom(self):
         r = self.rng.random()
         for p, f in ((0.14, self.k_polyexp), (0.36, self.k_sincos), (0.5, self.k_product), (0.58, self.k_hyp),
-                     (0.69, self.k_impulse), (0.83, self.k_special), (0.93, self.k_named), (0.96, self.k_sift), (0.98, self.k_cexp),
+                     (0.69, self.k_impulse), (0.79, self.k_special), (0.88, self.k_named), (0.91, self.k_sift), (0.97, self.k_polyfac), (0.985, self.k_cexp),
                      (1.01, self.k_sc3)):
             if r < p:
                 return f()
@@ -290,6 +320,8 @@ def leaf_coq(f):
     t = f[0]
     if t == 'powt':
         return '(P %d)' % f[1]
+    if t == 'poly':
+        return '(LPoly (K:=QcIF) [%s])' % '; '.join(kq(c) for c in f[1])
     if t in LEAF:
         return '(%s (K:=QcIF) %s %s)' % (LEAF[t], kq(f[1]), kq(f[2]))
     if t == 'delta':
@@ -345,95 +377,6 @@ def parse_failing(out):
     if not body:
         return []
     return [(int(a), int(b)) for a, b in re.findall(r'\((\d+)(?:%nat)?\s*,\s*(\d+)(?:%nat)?\)', body)]
-
-
-DS = [24, 144]
-
-
-def make_points(rng, npts=2):
-    pts = []
-    for s0 in rng.sample([5, 7, 11, 13], npts):
-        syms = {n: '%d/%d' % (rng.choice([2, 3, 5, 7]), rng.choice([1, 2])) for n in SYMS}
-        pts.append({'s0': s0, 'Ds': DS, 'syms': syms})
-    return pts
-
-
-# ------------------------------------------------------------------------------------------ Coq case files
-def kq(js):
-    a, b = Fraction(js[0]), Fraction(js[1])
-    return '(qi (%d) %d (%d) %d)' % (a.numerator, a.denominator, b.numerator, b.denominator)
-
-
-LEAF = {'exp': 'LExp', 'sin': 'LSin', 'cos': 'LCos', 'sinh': 'LSinh', 'cosh': 'LCosh', 'u': 'LU',
-        'rect': 'LRect', 'tri': 'LTri', 'ramp': 'LRamp', 'rstep': 'LRstep'}
-
-
-def leaf_coq(f):
-    t = f[0]
-    if t == 'powt':
-        return '(P %d)' % f[1]
-    if t in LEAF:
-        return '(%s (K:=QcIF) %s %s)' % (LEAF[t], kq(f[1]), kq(f[2]))
-    if t == 'delta':
-        return '(LDelta (K:=QcIF) %d %s %s)' % (f[1], kq(f[2]), kq(f[3]))
-    if t == 'undef':
-        return '(LUndef (K:=QcIF) %d %s %s)' % (f[1], kq(f[2]), kq(f[3]))
-    if t == 'deriv':
-        return '(LDeriv (K:=QcIF) %d %d)' % (f[1], f[2])
-    if t == 'integ':
-        return '(LInteg (K:=QcIF) %d)' % f[1]
-    if t == 'conv':
-        return '(LConv (K:=QcIF) %d %d)' % (f[1], f[2])
-    raise ValueError(t)
-
-
-def tx_coq(ast):
-    return '[' + '; '.join('(%s, [%s])' % (kq(m['c']), '; '.join(leaf_coq(f) for f in m['fs'])) for m in ast) + ']'
-
-
-FALLBACK_GEN = '''(* fallback when lcapy/laplace.py cannot be translated: the specification forms stand in for the generated ones, so
-   that the correspondence cases still compare the real code with the specification *)
-Require Import LT.FieldSec LT.PolyQ LT.ExpPoly LT.LaplaceSig LT.LaplaceModel.
-Definition gen_forms (K : fld) (V : lenv K) : forms K :=
-  spec_forms K (l_ex K V) (l_sn K V) (l_cs K V) (l_neg K V) (l_Fn K V) (l_Ic K V).
-'''
-CASES_HEAD = '''(* GENERATED correspondence cases for C09 (checks/c09.py). *)
-Require Import LT.FieldSec LT.QcI LT.PolyQ LT.ExpPoly LT.LaplaceSig LT.LaplaceModel LT.LaplaceExec Gen.LaplaceGen.
-From Coq Require Import QArith Qcanon.
-Definition P (n : nat) : leaf QcIF := LPowT n.
-Definition rc (D : positive) := run_case (gen_forms QcIF (xenv D)) D.
-'''
-
-
-def cases_v(items):
-    """items: (index, D, zic, ast, s0, want_js, events, check_events)"""
-    lines = [CASES_HEAD, 'Definition cases : list (nat * nat) := [']
-    body = []
-    for idx, D, zic, ast, s0, want, evs, chk in items:
-        strict = any(f[0] == 'delta' and Fraction(f[3][0]) == 0 for m in ast for f in m['fs'])
-        body.append('(%d%%nat, rc %d %s %s (qi %d 1 0 1) %s [%s] %s %s)' % (
-            idx, D, 'true' if zic else 'false', tx_coq(ast), s0, kq(want),
-            '; '.join('%d%%nat' % e for e in evs), 'true' if chk else 'false', 'true' if strict else 'false'))
-    lines.append(';\n'.join(body))
-    lines.append('].\nDefinition failing := filter (fun p => negb (Nat.eqb (snd p) 0)) cases.\nEval vm_compute in failing.\n')
-    return '\n'.join(lines)
-
-
-def parse_failing(out):
-    m = re.search(r'=\s*\[(.*?)\]\s*:\s*list \(nat \* nat\)', out, re.S)
-    if not m:
-        return None
-    body = m.group(1).strip()
-    if not body:
-        return []
-    return [(int(a), int(b)) for a, b in re.findall(r'\((\d+)(?:%nat)?\s*,\s*(\d+)(?:%nat)?\)', body)]
-
-
-if __name__ == '__main__' and len(sys.argv) <= 2:
-    rng = random.Random(int(sys.argv[1]) if len(sys.argv) > 1 else 0)
-    g = Gen(rng)
-    for _ in range(40):
-        print(g.expression())
 
 
 
@@ -583,7 +526,7 @@ def run(tier='quick', replay=None):
     res = core.Result(PID, tier)
     rng = random.Random(core.seed() * 104729 + 9)
     core.ensure_theory(['FieldSec', 'PolyQ', 'ExpPoly', 'QcI', 'LaplaceSig', 'LaplaceModel', 'LaplaceExec',
-                        'LaplaceAnalysis', 'LaplaceLink', 'LaplacePointwise'])
+                        'LaplaceAnalysis', 'LaplaceLink', 'LaplacePointwise', 'LaplaceDen'])
     w = core.Work(PID)
     violations = []
     try:
